@@ -45,13 +45,19 @@ def formatType : Nat → TR → Option (List Byte × TR)
       | _ => some ([], t)
     match body with
     | none => none
-    | some (bs, t1) =>
-      let (_, t2) := next t1
-      if t2.nextTok.kind == .openSquare then
-        let (_, t3) := next t2
-        some (bs ++ strOfAscii "[]", t3)
-      else some (bs, { t2 with keep := true })
-where strOfAscii (s : String) : List Byte := s.toList.map (fun c => UInt8.ofNat c.toNat)
+    | some (bs, t1) => arrSuffix f t1 bs
+where
+  strOfAscii (s : String) : List Byte := s.toList.map (fun c => UInt8.ofNat c.toNat)
+  /-- `for { if !tr.Next() || kind != '[' { tr.UnNext(); break }; tr.Next(); append "[]" }` -/
+  arrSuffix : Nat → TR → List Byte → Option (List Byte × TR)
+    | 0, _, _ => none
+    | f+1, t1, bs =>
+      match next t1 with
+      | (ok, t2) =>
+        if ok && t2.nextTok.kind == .openSquare then
+          let (_, t3) := next t2
+          arrSuffix f t3 (bs ++ strOfAscii "[]")
+        else some (bs, { t2 with keep := true })
 
 def sq (s : String) : List Byte := s.toList.map (fun c => UInt8.ofNat c.toNat)
 
@@ -60,11 +66,23 @@ def fmtAttr (pre : List Byte) (t : TR) : List Byte × TR :=
   let (a, t1) := takeToks [] 5 t (pre ++ t.nextTok.concrete)
   (a ++ [10], t1)
 
-def formatEnum : Nat → TR → List Byte × TR
-  | fuel, t =>
+def formatEnum (fuel : Nat) (t : TR) : List Byte × TR :=
     let (hd, t1) := takeToks [32] 2 t t.nextTok.concrete
+    let (hd, t1) := if t1.nextTok.kind == .colon then takeToks [32] 2 t1 hd else (hd, t1)
     loop fuel t1 (hd ++ [10])
 where
+  /-- `for tr.Next() && kind != ';' { space unless after '(' or before ')'; append }` -/
+  optValue : Nat → TR → TK → List Byte → List Byte × TR
+    | 0, t, _, acc => (acc, t)
+    | f+1, t, prev, acc =>
+      match next t with
+      | (false, t1) => (acc, t1)
+      | (true, t1) =>
+        let tk := t1.nextTok
+        if tk.kind == .semicolon then (acc, t1)
+        else
+          let sp := if prev != .openParen && tk.kind != .closeParen then [32] else []
+          optValue f t1 tk.kind (acc ++ sp ++ tk.concrete)
   loop : Nat → TR → List Byte → List Byte × TR
     | 0, t, acc => (acc, t)
     | f+1, t, acc =>
@@ -77,9 +95,8 @@ where
         | .blockComment => loop f t1 (acc ++ [9] ++ tk.concrete ++ [10])
         | .openSquare => let (a, t2) := fmtAttr [9] t1; loop f t2 (acc ++ a)
         | .ident =>
-          let (o, t2) := takeToks [32] 2 t1 ([9] ++ tk.concrete)
-          let (_, t3) := next t2
-          loop f t3 (acc ++ o ++ sq ";\n")
+          let (o, t2) := optValue fuel t1 tk.kind ([9] ++ tk.concrete)
+          loop f t2 (acc ++ o ++ sq ";\n")
         | .closeCurly => (acc ++ tk.concrete ++ [10], t1)
         | _ => loop f t1 acc
 
@@ -187,7 +204,11 @@ def formatLoop (fuel : Nat) : Nat → TR → List Byte → Bool → Bool → Opt
       let pre := if nl then [10] else []
       match tk.kind with
       | .openSquare =>
-        let (a, t2) := takeToks [] 5 t1 tk.concrete
+        let (a, t2) := takeToks [] 1 t1 tk.concrete
+        let (a, t2) := takeToks [] (if t2.nextTok.kind == .kFlags then 1 else 4) t2 a
+        formatLoop fuel f t2 (out ++ pre ++ a ++ [10]) false false
+      | .kImport =>
+        let (a, t2) := takeToks [32] 1 t1 tk.concrete
         formatLoop fuel f t2 (out ++ pre ++ a ++ [10]) false false
       | .lineComment => formatLoop fuel f t1 (out ++ tk.concrete) false false
       | .blockComment => formatLoop fuel f t1 (out ++ tk.concrete ++ [10]) false false
